@@ -446,7 +446,7 @@ class Outcome:
 
 # --------------------------------------------------------------------------- mode G helper
 
-def generate(pid, module, cfg, cases_path, workers=None, timeout=3600, env=None, simulate=None, depth=None, seed=None, xmx="6g", transform=None):
+def generate(pid, module, cfg, cases_path, workers=None, timeout=3600, env=None, simulate=None, depth=None, seed=None, xmx="6g", transform=None, coverage=False):
     """Mode G: run TLC on the model; every <<"REPLAY", json>> line becomes one line of cases_path.
     Returns (number of cases, TlcResult)."""
     n = [0]
@@ -458,8 +458,9 @@ def generate(pid, module, cfg, cases_path, workers=None, timeout=3600, env=None,
                     return
             f.write(json.dumps(payload, separators=(",", ":")) + "\n")
             n[0] += 1
+        # -coverage 1 makes TLC several times slower and memory-hungry on the large functional-core specs: off unless asked for
         res = run_tlc(pid, module, cfg=cfg, env=env, workers=workers or NCPU, timeout=timeout, replay_sink=sink,
-                      simulate=simulate, depth=depth, seed=seed, xmx=xmx)
+                      simulate=simulate, depth=depth, seed=seed, xmx=xmx, coverage=coverage)
     if res.rc != 0 or res.invariant_violated:
         raise ToolError("model %s/%s: TLC reports a violated invariant or error in mode G:\n%s" % (module, cfg, res.out[-3000:]))
     return n[0], res
